@@ -11,7 +11,7 @@ import modelrun
 from ref import oracle
 from props import rebuild_common as rc
 
-GEN_FILES = []
+GEN_FILES = ["GenPathCheck.v"]
 EXTRA_TARGETS = ["Extract/ExtractRebuild.vo"]
 AREAS = ["rebuild"]
 RULE = ("model tie: Metadata._check_parts vs the extracted safe_comp on every generated path element and vs check_parts_model on "
